@@ -22,7 +22,7 @@ BOUNDS = {'quick': {'dimension': 'n = 2 for smooth / simple functionals, n = 1 f
 OUTSIDE = ['nuclear norm', 'Fenchel-Young by values for KL-type functionals (gradient relations and Moreau only)',
            'KL cross entropy proximals (Lambert W)', 'sqrt-based functionals by values beyond the stated dimension']
 ASSUMPTIONS = ['np.finfo eps served as 0 (see C07)']
-SETTINGS = {'max_paths': 1200, 'tol': (1e-9, 4), 'obligation_timeout_ms': 20000, 'eps_zero': True}
+SETTINGS = {'strict_definedness': False, 'max_paths': 1200, 'tol': (1e-9, 4), 'obligation_timeout_ms': 20000, 'eps_zero': True}
 CFG_TIMEOUT = {'quick': 300, 'thorough': 1200}
 
 SKIP_VALUES = ('KullbackLeibler', 'KullbackLeibler/no-prior', 'KullbackLeiblerConvexConj',
